@@ -116,6 +116,15 @@ fn mro_history(r: &mut Rng, g: &mut G) -> Vec<Step> {
         steps.push(Step::Append { n: 0, blk });
     }
     steps.push(Step::MakeReadOnly { n: 0 });
+    // keep using the read-only instance: clears and reads run the periodic flush again
+    for _ in 0..r.below(6) {
+        if g.len > 0 && r.chance(2, 3) {
+            let (s, e) = g.clear_range(r);
+            steps.push(Step::Clear { n: 0, start: s, end: e.min(g.len + 1) });
+        } else {
+            steps.push(Step::Get { n: 0, index: g.index(r) });
+        }
+    }
     match r.below(4) {
         0 => steps.push(Step::MakeReadOnly { n: 0 }),
         1 => {
@@ -699,7 +708,7 @@ fn c12(tier: &str) -> PropDef {
     ];
     PropDef {
         level: "fault_enumeration",
-        rule: "histories (as C01) ending in or interleaved with make_read_only, biased to reach it with 0-4 unflushed entries in the log under each header-slot phase, on writers and on replicas. Oracle: append on a core without secret key => Err(NotWritable), zero storage ops, zero events, state unchanged; after make_read_only returns true no storage file contains any 12-byte window of the 32-byte secret seed; reopen => writeable false, same public key, all data intact; second call => Ok(false); on a replica the first call => Ok(false); key_pair(..).open(true) => Err(BadArgument) with storage untouched; every reopen checks recovered key and writability. Crash part: EVERY journal prefix (and torn prefix of the next write) of those histories is reopened: a crash inside make_read_only must recover a writable or read-only core with the full before/after scan intact. distinct = trace hash; non-trivial = mutating step and (reopen or crash enumeration).",
+        rule: "histories (as C01) ending in or interleaved with make_read_only, biased to reach it with 0-4 unflushed entries in the log under each header-slot phase, on writers and on replicas. Oracle: append on a core without secret key => Err(NotWritable), zero storage ops, zero events, state unchanged; after make_read_only returns true no storage file contains any 12-byte window of the 32-byte secret seed, neither right away nor after any later operation on the read-only instance (clears and reads that run the periodic flush); reopen => writeable false, same public key, all data intact; second call => Ok(false); on a replica the first call => Ok(false); key_pair(..).open(true) => Err(BadArgument) with storage untouched; every reopen checks recovered key and writability. Crash part: EVERY journal prefix (and torn prefix of the next write) of those histories is reopened: a crash inside make_read_only must recover a writable or read-only core with the full before/after scan intact. distinct = trace hash; non-trivial = mutating step and (reopen or crash enumeration).",
         assumptions: CRASH_ASSUME.to_vec(),
         families,
     }
